@@ -7,6 +7,7 @@ import (
 	"context"
 	"fmt"
 	ebu "github.com/jilio/ebu"
+	"reflect"
 	"runtime"
 	"sync"
 	"sync/atomic"
@@ -243,6 +244,51 @@ func TestC04Sequences(t *testing.T) {
 		sigv := fmt.Sprintf("shared-options async%v seq%v filter%v twoTypes%v", async, seq, filter, twoTypes)
 		if c1.Load() != want1 || c2.Load() != want1 || c3.Load() != want3 || ebu.HandlerCount[soA](bus) != 0 || ebu.HandlerCount[soB](bus) != 0 {
 			run.Violation("once:shared-option-values", fmt.Sprintf("%s: two (three) Once handlers subscribed with the same option values were invoked %d / %d / %d times (want %d / %d / %d) and HandlerCount is %d + %d afterwards (want 0)", sigv, c1.Load(), c2.Load(), c3.Load(), want1, want1, want3, ebu.HandlerCount[soA](bus), ebu.HandlerCount[soB](bus)), map[string]any{"variant": sigv})
+		}
+		run.Case(sigv, true)
+	}
+	// an after-publish hook that panics (the publisher recovers and carries on): the once handler that
+	// fired in that publish has fired - it is not counted afterwards and never runs again
+	type ohEv struct{ ID int }
+	for v := 0; v < 8; v++ {
+		idx++
+		if !run.Mine(idx) {
+			continue
+		}
+		ctxHook, async, twice := v&1 != 0, v&2 != 0, v&4 != 0
+		boom := func() { panic("c04: after-publish hook panics") }
+		var opts []ebu.Option
+		if ctxHook {
+			opts = append(opts, ebu.WithAfterPublishContext(func(context.Context, reflect.Type, any) { boom() }))
+		} else {
+			opts = append(opts, ebu.WithAfterPublish(func(reflect.Type, any) { boom() }))
+		}
+		bus := ebu.New(opts...)
+		var calls atomic.Int32
+		so := []ebu.SubscribeOption{ebu.Once()}
+		if async {
+			so = append(so, ebu.Async())
+		}
+		ebu.Subscribe(bus, func(ohEv) { calls.Add(1) }, so...)
+		if twice {
+			ebu.Subscribe(bus, func(ohEv) { calls.Add(1) }, ebu.Once())
+		}
+		pub := func(id int) {
+			defer func() { recover() }()
+			ebu.Publish(bus, ohEv{ID: id})
+		}
+		pub(1)
+		bus.Wait()
+		n1 := ebu.HandlerCount[ohEv](bus)
+		pub(2)
+		bus.Wait()
+		want := int32(1)
+		if twice {
+			want = 2
+		}
+		sigv := fmt.Sprintf("after-hook-panics ctx%v async%v twice%v", ctxHook, async, twice)
+		if calls.Load() != want || n1 != 0 || ebu.HasHandlers[ohEv](bus) {
+			run.Violation("once:counted-after-hook-panic", fmt.Sprintf("%s: after a publish whose after-publish hook panicked, the once handlers that fired in it are counted as %d subscribers (want 0); after a second publish they have run %d times in total (want %d)", sigv, n1, calls.Load(), want), map[string]any{"variant": sigv})
 		}
 		run.Case(sigv, true)
 	}
